@@ -46,12 +46,99 @@ def _delegates(f, names) -> bool:
     return bool(rets) and all(isinstance(r.value, ast.Call) and callee_name(r.value) in names for r in rets)
 
 
+def r16_12(prog: Program, rep):
+    """pack_refs changes nothing observable: a SYMBOLIC ref stays symbolic.  In DiskRefsContainer.pack_refs every path to the
+    store into the set of refs to pack passes a test of the raw ref contents for the symref marker whose marker side leaves
+    the iteration (git pack-refs never packs symbolic refs)."""
+    from sa.flow import must_pass
+    from sa.cfg import node_calls
+    m = prog.module("dulwich/refs.py")
+    f = m.funcs.get("DiskRefsContainer.pack_refs")
+    if f is None:
+        raise AnalysisError("DiskRefsContainer.pack_refs not found")
+    g = cfg_of(prog, f)
+    stores = [i for i, n in g.nodes.items() if n.kind == "stmt" and isinstance(n.ast, ast.Assign) and isinstance(n.ast.targets[0], ast.Subscript)
+              and "pack" in norm(n.ast.targets[0].value)]
+    if not stores:
+        raise AnalysisError("pack_refs: the store into the refs-to-pack mapping not found")
+    tests = {}
+    for i, n in g.nodes.items():
+        if n.kind == "test" and ("SYMREF" in norm(n.ast) or "b'ref: '" in norm(n.ast)) and "startswith" in norm(n.ast):
+            tests[i] = "false" if norm(n.ast).startswith("not ") else "true"
+    # with the 'is symbolic' edge as the only way on, the store must be unreachable
+    from sa.flow import reach
+    leak = []
+    for t, lab in tests.items():
+        r = reach(g, [b for b, l in g.succ[t] if l == lab], include_srcs=True, avoid=set(k for k in g.nodes if g.nodes[k].kind == "for_iter"))
+        leak += [x for x in stores if x in r]
+    # a path that avoids the marker test is accepted only through the 'no loose file' side of a None test of the same contents
+    # (a ref that exists only in packed-refs cannot be symbolic)
+    none_edges = {}
+    for i, n in g.nodes.items():
+        if n.kind == "test" and isinstance(n.ast, ast.Compare) and len(n.ast.ops) == 1 and isinstance(n.ast.comparators[0], ast.Constant) \
+                and n.ast.comparators[0].value is None and isinstance(n.ast.ops[0], (ast.Is, ast.IsNot)):
+            none_edges[i] = "true" if isinstance(n.ast.ops[0], ast.Is) else "false"
+    bad = must_pass(g, stores, list(tests), edge_ok=lambda a_, b_, l: not (a_ in none_edges and l == none_edges[a_]))
+    rep.ob("R16.12", m.rel, f.qual, "a symbolic ref is recognised (raw contents start with the symref marker) and skipped before a ref is put on the pack list",
+           bool(tests) and not bad and not leak,
+           "every ref is resolved and packed, then its loose file removed: refs/remotes/origin/HEAD becomes a plain packed ref frozen at its current target and "
+           "no longer follows the branch it pointed at", g.nodes[stores[0]].line)
+
+
+def r16_13(prog: Program, rep):
+    """SIBLINGS-AGREE on the preparation of a ref-file write in the files backend.  Every method of DiskRefsContainer that
+    takes the lock of a ref file in order to WRITE it (set_if_equals, add_if_new, set_symbolic_ref) first (a) removes empty
+    directories standing at the path of the file - a failed or interrupted update of refs/heads/a/b leaves refs/heads/a/
+    behind, and an unconditional write of refs/heads/a must still take effect - and (b) creates the parent directories.
+    remove_if_equals only needs (b)."""
+    from sa.flow import must_pass
+    from sa.cfg import node_calls
+    from sa.common import is_gitfile_call, gitfile_mode
+    m = prog.module("dulwich/refs.py")
+    n = 0
+    for q, f in sorted(m.funcs.items()):
+        if not q.startswith("DiskRefsContainer.") or "#" in q:
+            continue
+        g = cfg_of(prog, f)
+        locks = []
+        for i, nd in g.nodes.items():
+            for c in node_calls(nd):
+                if is_gitfile_call(prog, m, c) and "w" in (gitfile_mode(c) or "") and c.args and isinstance(c.args[0], ast.Name):
+                    # the path is a ref path: some definition of the name is self.refpath(..)
+                    if any(isinstance(s_, ast.Assign) and isinstance(s_.targets[0], ast.Name) and s_.targets[0].id == c.args[0].id and isinstance(s_.value, ast.Call)
+                           and callee_name(s_.value) == "refpath" for s_ in ast.walk(f.node)):
+                        locks.append((i, c))
+        if not locks:
+            continue
+        writes = any(isinstance(c, ast.Call) and isinstance(c.func, ast.Attribute) and c.func.attr == "write" for c in ast.walk(f.node))
+        for i, c in locks:
+            n += 1
+            var = c.args[0].id
+            mk = [j for j, nd in g.nodes.items() for cc in node_calls(nd) if callee_name(cc) == "ensure_dir_exists" and var in norm(cc)]
+            bad = must_pass(g, [i], mk)
+            rep.ob("R16.13", m.rel, f.qual, f"the parent directories of `{var}` are created before its lock is taken", bool(mk) and not bad,
+                   "the lock file is opened in a directory that may not exist yet (siblings call ensure_dir_exists first): the operation fails with "
+                   "FileNotFoundError for the first ref below a new directory", c.lineno)
+            if writes:
+                rm = [j for j, nd in g.nodes.items() for cc in node_calls(nd) if callee_name(cc) in ("_remove_empty_dirs_at", "remove_empty_directories") and var in norm(cc)]
+                bad2 = must_pass(g, [i], rm)
+                rep.ob("R16.13", m.rel, f.qual, f"empty directories standing at `{var}` are removed before the ref file is written", bool(rm) and not bad2,
+                       "a failed or interrupted update of refs/heads/a/b leaves the empty directory refs/heads/a: the rename of the lock file onto it fails "
+                       "(IsADirectoryError) and add_if_new takes the directory for an existing ref, although no ref is in the way", c.lineno)
+    if n < 4:
+        raise AnalysisError(f"expected >= 4 ref-file lock sites in DiskRefsContainer, found {n}")
+
+
 def run(prog: Program, rep, tier="quick"):
     rep.rule("R16.1", "UNREACHABLE-UNDER(old_ref is None): no `return False` in set_if_equals/remove_if_equals of any backend")
     rep.rule("R16.2", "set_if_equals/add_if_new/remove_if_equals return a bool expression on every normal path")
     rep.rule("R16.3", "SIBLINGS-AGREE: the value compared with old_ref defaults to ZERO_SHA when the ref is absent")
     rep.rule("R16.4", "writable backends override the abstract operations; overrides accept the base signature")
     rep.rule("R16.5", "TABLE-AGREE: check_ref_format tests every rule of git-check-ref-format(1), each on a path to False")
+    rep.rule("R16.13", "SIBLINGS-AGREE: every ref-file write of the files backend first removes empty directories in the way and creates the parent directories")
+    r16_13(prog, rep)
+    rep.rule("R16.12", "pack_refs never packs a symbolic ref (packing refs changes nothing observable)")
+    r16_12(prog, rep)
     rep.rule("R16.11", "add_if_new decides existence through the backend's merged read and the resolved value; namespace views answer in their own names")
     rep.rule("R16.10", "TABLE-AGREE with git: symref resolution depth (SYMREF_MAXDEPTH = 5)")
     rep.rule("R16.9", "unconditional (old_ref=None) set/remove always take effect: no `return True` without a state mutation before it")
@@ -59,7 +146,7 @@ def run(prog: Program, rep, tier="quick"):
     rep.rule("R16.8", "files backend: every successful delete passes the empty-parent-directory cleanup")
     rep.rule("R16.6", "packed-refs grammar: writer and readers agree on '<sha> SP <name> LF', '^<sha> LF', header")
     rep.not_decided += ["equality with the map model over operation sequences", "directory/file conflicts",
-                        "git's own view of the directory", "whether pack_refs preserves symbolic refs"]
+                        "git's own view of the directory"]
     bks = backends(prog)
     if len(bks) < 4:
         raise AnalysisError(f"RefsContainer hierarchy has {len(bks)} classes, expected >= 4")
@@ -259,6 +346,7 @@ def run(prog: Program, rep, tier="quick"):
         raise AnalysisError("NamespacedRefsContainer.get_packed_refs not found")
     strip_vars = {x.targets[0].id for x in ast.walk(ns.node) if isinstance(x, ast.Assign) and isinstance(x.targets[0], ast.Name) and isinstance(x.value, ast.Call)
                   and callee_name(x.value) == "_strip_namespace"}
+    strip_vars |= {x.target.id for x in ast.walk(ns.node) if isinstance(x, ast.NamedExpr) and isinstance(x.value, ast.Call) and callee_name(x.value) == "_strip_namespace"}
 
     def stripped_key(k):
         return any((isinstance(y, ast.Call) and callee_name(y) == "_strip_namespace") or (isinstance(y, ast.Name) and y.id in strip_vars) for y in ast.walk(k))
